@@ -278,7 +278,10 @@ func cBL(l [][]byte) string {
 
 // ---------------------------------------------------------------- seeds (valid encodings)
 
-type gen struct{ rng *Rng }
+type gen struct {
+	rng        *Rng
+	unmappable [][]byte // encodings of generated transactions whose mapping panicked
+}
 
 func (g *gen) bytes(max int) []byte {
 	if g.rng.Chance(20) {
@@ -386,10 +389,27 @@ func (g *gen) header() *types.BlockHeader {
 	}
 	return bh
 }
+// newTx maps a generated transaction.  If mapping panics (it is the same MapTx the decoders run),
+// the transaction's encoding is kept for the decode oracle, which reports the panic with its
+// input, and a trivial transaction stands in for it.
+func (g *gen) newTx(td *types.TxData) (tx *types.Tx) {
+	defer func() {
+		if recover() != nil {
+			if raw, err := td.MarshalText(); err == nil {
+				if b, err := hex.DecodeString(string(raw)); err == nil {
+					g.unmappable = append(g.unmappable, b)
+				}
+			}
+			tx = types.NewTx(types.TxData{Version: 1})
+		}
+	}()
+	return types.NewTx(*td)
+}
+
 func (g *gen) block(allowIssuance bool) *types.Block {
 	b := &types.Block{BlockHeader: *g.header()}
 	for i, n := 0, g.rng.Intn(3); i < n; i++ {
-		b.Transactions = append(b.Transactions, types.NewTx(*g.tx(allowIssuance, false)))
+		b.Transactions = append(b.Transactions, g.newTx(g.tx(allowIssuance, false)))
 	}
 	return b
 }
@@ -425,9 +445,9 @@ func (g *gen) seed(entry string, allowIssuance bool) []byte {
 		case 3:
 			m, _ = msgs.NewBlocksMessage([]*types.Block{g.block(false), g.block(false)})
 		case 4:
-			m, _ = msgs.NewTransactionMessage(types.NewTx(*g.tx(false, false)))
+			m, _ = msgs.NewTransactionMessage(g.newTx(g.tx(false, false)))
 		case 5:
-			m, _ = msgs.NewTransactionsMessage([]*types.Tx{types.NewTx(*g.tx(false, false)), types.NewTx(*g.tx(false, false))})
+			m, _ = msgs.NewTransactionsMessage([]*types.Tx{g.newTx(g.tx(false, false)), g.newTx(g.tx(false, false))})
 		case 6:
 			h := g.hash()
 			m = msgs.NewGetHeadersMessage([]*bc.Hash{&h}, &h, g.u())
@@ -725,6 +745,28 @@ func runC05(c *Ctx) error {
 		raw = append(raw[:len(raw)-1], 0x01)
 		raw = append(raw, w1...)
 		do(mcase{entry: "block", in: raw, how: "regression-unknown-asset-version"})
+		// the same transaction / block inside every message that carries transactions or blocks:
+		// the accessor must return an error like the direct decoders, not panic
+		txt := func(b []byte) []byte { return []byte(hex.EncodeToString(b)) } // messages carry the text form
+		okTx := txt(mustHex(g.tx(false, false).MarshalText()))
+		unk := [][]byte{txt(w1), txt(mustHex(g.tx(false, true).MarshalText())), txt(mustHex(g.tx(true, true).MarshalText()))}
+		for _, u := range unk {
+			for _, m := range []msgs.BlockchainMessage{
+				&msgs.TransactionMessage{RawTx: u},
+				&msgs.TransactionsMessage{RawTxs: [][]byte{u}},
+				&msgs.TransactionsMessage{RawTxs: [][]byte{okTx, u}},
+				&msgs.TransactionsMessage{RawTxs: [][]byte{u, okTx, okTx}},
+			} {
+				do(mcase{entry: "chainmsg", in: wire.BinaryBytes(struct{ msgs.BlockchainMessage }{m}), how: "unknown-asset-version-in-message"})
+			}
+		}
+		for _, m := range []msgs.BlockchainMessage{
+			&msgs.BlockMessage{RawBlock: txt(raw)}, &msgs.MineBlockMessage{RawBlock: txt(raw)},
+			&msgs.BlocksMessage{RawBlocks: [][]byte{txt(raw)}}, &msgs.BlocksMessage{RawBlocks: [][]byte{txt(mustHex(b.MarshalText())), txt(raw)}},
+		} {
+			do(mcase{entry: "chainmsg", in: wire.BinaryBytes(struct{ msgs.BlockchainMessage }{m}), how: "unknown-asset-version-in-message"})
+		}
+		do(mcase{entry: "consensusmsg", in: wire.BinaryBytes(struct{ consensusmgr.ConsensusMessage }{&consensusmgr.BlockProposeMsg{RawBlock: txt(raw)}}), how: "unknown-asset-version-in-message"})
 		hraw := mustHex((&types.BlockHeader{Version: 1}).MarshalText())
 		for _, cnt := range []uint64{1 << 14, 1 << 20, 1 << 24} {
 			v := putUvarint(cnt)
@@ -822,6 +864,13 @@ func runC05(c *Ctx) error {
 		e := entries[g.rng.Intn(len(entries))]
 		do(g.randomMutation(e, g.seed(e, i%9 == 0)))
 	}
+
+	// ---- generated transactions the harness itself could not map: through the decoders
+	for _, raw := range g.unmappable {
+		do(mcase{entry: "tx", in: raw, how: "generated-value-panics-in-MapTx"})
+		do(mcase{entry: "txdata", in: raw, how: "generated-value-panics-in-MapTx"})
+	}
+	st.Distribution["generated-unmappable"] = len(g.unmappable)
 
 	// ---- inputs with huge counts: in child processes
 	if len(hugeCases) > c.N(2500, 12000) {
